@@ -584,8 +584,11 @@ func (h *memoHarness) runConcurrent(t *testing.T, c *MemoCase) *Outcome {
 	var events []*memoEvent
 	sim.SetMapSeed(c.Sched | 1)
 	cfg := sim.Config{Preempt: c.Preempt, PreemptMean: c.PMean, MaxSteps: 80000, Trace: traceOn}
+	var auditInner storage.Graph
+	var auditHandles []storage.Graph
 	res, bmsg := simRun(t, tape, cfg, func(r *sim.Runtime) {
-		_, handles, _ := memoSetup(ctx, c, uni)
+		inner, handles, _ := memoSetup(ctx, c, uni)
+		auditInner, auditHandles = inner, handles
 		for ci, ops := range c.Clients {
 			ci, ops := ci, ops
 			r.Client(fmt.Sprintf("c%d", ci), func() {
@@ -782,6 +785,33 @@ func (h *memoHarness) runConcurrent(t *testing.T, c *MemoCase) *Outcome {
 			cls += ":same-handle"
 		}
 		return fail(cls, "%s answered %q/%v, which is the wrapped store's answer in none of the states S%d..S%d it may observe", e.op.desc(c), e.keys, e.b, imin, jmax)
+	}
+	// quiescent audit: every client has returned; each read of the history, repeated now through the writer's handle,
+	// answers like the wrapped store (something memoized during the overlap and never invalidated shows here)
+	if auditInner != nil {
+		for _, e := range events {
+			if e.op.K == "add" || e.op.K == "rm" {
+				continue
+			}
+			if e.op.K == "exist" {
+				got, err1 := auditHandles[0].Exist(ctx, uni[e.op.Ts[0]])
+				want, err2 := auditInner.Exist(ctx, uni[e.op.Ts[0]])
+				if err1 != nil || err2 != nil || got != want {
+					return fail("stale-read:same-handle:after-quiescence", "after all clients returned, exist #%d through the writer's handle = (%v,%v), wrapped store = (%v,%v)", e.op.Ts[0], got, err1, want, err2)
+				}
+				continue
+			}
+			os := OptSpec{}
+			if e.op.Opt != nil {
+				os = *e.op.Opt
+			}
+			got := doLookup(ctx, auditHandles[0], *e.op.L, os.Build(), c.Cap)
+			want := doLookup(ctx, auditInner, *e.op.L, os.Build(), c.Cap)
+			if (got.Err != nil) != (want.Err != nil) || !equalStrings(got.Keys, want.Keys) {
+				return fail("stale-read:same-handle:after-quiescence", "after all clients returned, %s through the writer's handle = %q err=%v, wrapped store = %q err=%v", e.op.desc(c), got.Keys, got.Err, want.Keys, want.Err)
+			}
+			o.stat("audit_reads", 1)
+		}
 	}
 	if overlap {
 		o.stat("probe_read_overlaps_write", 1)
